@@ -480,6 +480,10 @@ def main():
     # correspondence + black box, property specific
     if prep.harness_ok and prep.driver_ok:
         spec["run"](o, tier, rng, prep)
+    elif pid in ("C03", "C08", "C17"):
+        # nothing can be run in-process: the properties about answering still get a hunt on the binary alone
+        import props
+        props.liveness_hunt(o)
     return finish(o)
 
 
